@@ -130,6 +130,10 @@ def gen(ctx, deep):
         e = rng.choice(g)
         jobs.append((cfg, [("remove", "g", e), ("add", "g", e)]))
         jobs.append((cfg, [("setstore", {"p": p, "g": [], "g2": []}), ("load", None), ("add", "g", e)]))
+        # a swapped role manager, then a grant and a revocation; a reload that is rejected while the links are being built
+        other = rng.choice([x for x in GU if x not in g] or [e])
+        jobs.append((cfg, [("remove", "p", ["nobody", "x", "y"]), ("setrm",), ("add", "g", other), ("remove", "g", e)]))  # decisions are asked before the swap too
+        jobs.append((cfg, [("setstore", {"p": p, "g": [other, [other[0]]], "g2": []}), ("load", None)]))
     # chains around the depth bound (names n0 -> n1 -> ... ), probed; beyond the bound enforce and the query API differ by design
     for L in range(7, 13):
         chain = [[f"n{i}", f"n{i+1}"] for i in range(L)]
@@ -171,7 +175,7 @@ def run(ctx):
     res.rule = (
         "RBAC policies over 4 names (users and roles, incl. self-assignments, cycles, diamonds) x 2 objects: a seeded sample (thorough: all) of the "
         "policies with <= 2 permission and <= 2 grouping rules, random larger ones, chains of length 7-12 around the depth bound, and random domain "
-        "policies, plus the same policies reached through a detour (a link removed and re-added; a reload from a store without role assignments); for every policy: get_implicit_roles_for_user / get_implicit_permissions_for_user / get_implicit_users_for_permission of every "
+        "policies, plus the same policies reached through a detour (a link removed and re-added; a reload from a store without role assignments; a swapped role manager followed by a grant and a revocation; a rejected reload); for every policy: get_implicit_roles_for_user / get_implicit_permissions_for_user / get_implicit_users_for_permission of every "
         "name compared with the Lean model and with the specification (reachability by an independent bounded BFS), and on the implementation itself: "
         "enforce <-> implicit permission for every request, implicit users = non-role subjects that enforce allows (each once), get_roles/get_users "
         "inverse; non-trivial/distinct = distinct policy"
